@@ -70,6 +70,8 @@ class SymSeconds(SymReal):
         ovs = _EMPTY
         if isinstance(o, SymSeconds):
             ous, ovs = o.us, o.vs
+        elif type(o).__name__ == "SymInt":          # a whole number of seconds
+            ous, ovs = o.e * US, o.vs
         elif isinstance(o, (int, float, np.integer, np.floating)) and not isinstance(o, bool):
             f = float(o) * US
             if f == f and abs(f) < 1e18:
@@ -103,6 +105,22 @@ class SymDelta:
         if _is_td(o):
             return z3.IntVal(td_to_us(o)), _EMPTY
         return None
+
+    # timedelta's normalised fields (days, 0 <= seconds < 86400, 0 <= microseconds < 10**6)
+    @property
+    def days(self):
+        from .intproxy import SymInt
+        return SymInt(self.e / DAY_US, self.vs)
+
+    @property
+    def seconds(self):
+        from .intproxy import SymInt
+        return SymInt((self.e % DAY_US) / US, self.vs)
+
+    @property
+    def microseconds(self):
+        from .intproxy import SymInt
+        return SymInt(self.e % US, self.vs)
 
     def total_seconds(self):
         if self.e.is_real():
